@@ -10,7 +10,7 @@ ID = "C10"
 TITLE = "Resolving packages and time conditions is exact bracketed substitution"
 ENGINE = "e1-bounded-enumeration"
 
-ATOMS8 = ["[1]", "[1P]", "[2P]", "[1P0..1]", "[3P]", "[UB1]", "[UB2]", "[UB3]"]
+ATOMS8 = ["[1]", "[1P]", "[2P]", "[1P0..1]", "[3P9..10]", "[UB1]", "[UB2]", "[UB3]"]
 ATOMS5 = ["[1]", "[1P]", "[2P]", "[UB1]", "[UB3]"]
 TABLES = [
     {"1P": "[11]", "2P": "[12]", "3P": "[13]"},
@@ -20,6 +20,7 @@ TABLES = [
     {"1P": "[2P] U [11]", "2P": "[3P]", "3P": "[1P0..1]"},
     {"1P": "[11]", "3P": "[13]"},  # 2P is unknown to the resolver
     {"1P": "[11] U [12]", "2P": "[11] U [12]", "3P": "[13]"},  # two packages with the same expression
+    {"1P": "([11] O [12]) U ([13] o [14])", "2P": "(([12]))", "3P": "([13] x [14])[901]"},  # bracket shapes, lower case operators
 ]
 FLAGS = [(True, True), (True, False), (False, True)]
 OPS_NOT_THEN = ("or_composition", "xor_composition", "and_composition")
@@ -37,7 +38,8 @@ def describe(tier):
                 "/ time conditions only). Oracle: flatten(resolved tree) == flatten(parse(R6(expr))) where R6 is the textual bracketed "
                 "substitution and the parse uses the real parser with both flags off (I3: only U/O/X runs are flattened, juxtaposition is "
                 "compared exactly); exactly one package level is expanded; any occurrence of a missing package => NotImplementedError. "
-                "Also through expand_packages / expand_time_conditions called directly, and (5 expressions with 2-3 package occurrences x 3 "
+                "All 1-2 atom expressions x all tables are also resolved with the table delivered by the library's DictBasedPackageResolver "
+                "(evaluator_factory) and ContentEvaluationResultBasedPackageResolver. Also through expand_packages / expand_time_conditions called directly, and (5 expressions with 2-3 package occurrences x 3 "
                 "tables) under ALL completion orders of a package resolver that really suspends (virtual event loop). Non-trivial = >= 2 abbreviations in the string.",
         "bounds": BOUNDS[tier],
         "exhaustive": True,
@@ -72,6 +74,10 @@ ORDER_EXPRS = ["[1P] U [2P]", "[1P0..1] U ([2P] O [3P])", "([1P][901]) X [2P] X 
 def plan(tier, seed):
     parts = 96 if tier == "quick" else 1024
     items = [{"tier": tier, "part": p, "parts": parts} for p in range(parts)]
+    # the package tables delivered through the resolvers the library ships
+    for mode in ("hardcoded", "cer", "methods"):
+        for table in range(len(TABLES)):
+            items.append({"fam": "modes", "mode": mode, "table": table})
     # package resolvers that really suspend: ALL completion orders on the virtual event loop (E3)
     for e in range(len(ORDER_EXPRS)):
         for table in (1, 2, 3):
@@ -94,13 +100,13 @@ def _flat(t):
     return R2.flatten(_I.tree_to_tuple(t), OPS_NOT_THEN)
 
 
-def check_case(expr, table, fp, ft, direct=False):
+def check_case(expr, table, fp, ft, direct=False, mode=None):
     if _I is None:
         worker_init()
     I = _I
     out = []
     pk = TABLES[table]
-    case = {"expr": expr, "table": table, "resolve_packages": fp, "replace_time_conditions": ft, "direct": direct}
+    case = {"expr": expr, "table": table, "resolve_packages": fp, "replace_time_conditions": ft, "direct": direct, "mode": mode}
     env = I.Env(packages=pk)
     try:
         sub = R6.substitute(expr, pk, fp, ft)
@@ -115,6 +121,12 @@ def check_case(expr, table, fp, ft, direct=False):
             if ft:
                 t = I.expand_time_conditions(t)
             return t
+    elif mode:
+        from mc import impl_modes as M
+
+        def call():
+            return M.run(mode, lambda: I.parse_expression_including_unresolved_subexpressions(expr, resolve_packages=fp,
+                                                                                             replace_time_conditions=ft), packages=pk)
     else:
         def call():
             return I.run(I.parse_expression_including_unresolved_subexpressions(expr, resolve_packages=fp,
@@ -131,6 +143,8 @@ def check_case(expr, table, fp, ft, direct=False):
     if r[0] == "exc":
         out.append({"kind": "resolution-raised", "case": case, "expected": f"tree of {sub!r}", "observed": r[1], "msg": expr})
         return out
+    if mode:
+        I.setup()
     e = I.try_call(lambda: I.run(I.parse_expression_including_unresolved_subexpressions(sub, resolve_packages=False,
                                                                                          replace_time_conditions=False), I.Env()))
     if e[0] == "exc":
@@ -198,6 +212,27 @@ def run_item(item):
     r = Result()
     if item.get("fam") == "orders":
         return _run_orders(item, r)
+    if item.get("fam") == "modes":
+        from mc import impl_modes as M
+
+        try:
+            for n in (1, 2):
+                for tmpl in S.exprs_exact(n, 0):
+                    for atoms in itertools.product(ATOMS8, repeat=n):
+                        expr = S.render(tmpl, atoms=list(atoms))
+                        for s in (expr, "Muss " + expr):
+                            vs = check_case(s, item["table"], True, True, mode=item["mode"])
+                            r.evaluations += 1
+                            r.states += 1
+                            r.transitions += 2
+                            r.traces += 1
+                            r.nontrivial += 1 if n == 2 else 0
+                            for v in vs:
+                                r.violation(v["kind"], v["case"], v["expected"], v["observed"], v["msg"])
+                        r.sample({"expr": expr, "mode": item["mode"], "table": item["table"]})
+        finally:
+            M.restore()
+        return r
     for i, (fam, expr) in enumerate(_strings(item["tier"])):
         if i % item["parts"] != item["part"]:
             continue
@@ -238,4 +273,11 @@ def replay(case):
         out = observe(vloop.run_schedule(factory, case["choices"]))
         return [] if out == want else [{"kind": "not-the-substituted-tree/completion-order", "case": case, "expected": want[:400],
                                          "observed": out[:400]}]
-    return check_case(case["expr"], case["table"], case["resolve_packages"], case["replace_time_conditions"], case.get("direct", False))
+    try:
+        return check_case(case["expr"], case["table"], case["resolve_packages"], case["replace_time_conditions"], case.get("direct", False),
+                          case.get("mode"))
+    finally:
+        if case.get("mode"):
+            from mc import impl_modes as M
+
+            M.restore()
